@@ -38,6 +38,7 @@ type c05Scenario struct {
 	Idx        int     `json:"idx"`
 	Race       int     `json:"race_rounds,omitempty"` // racing rounds: k deploys released together at the install step
 	Concurrent bool    `json:"concurrent"`
+	Mixed      bool    `json:"mixed_host_lists,omitempty"` // host lists drawn from all of c05Hosts at once: the no-host default next to named / wildcard hosts
 	Clients    int     `json:"clients"`
 	Ops        []c05Op `json:"ops"`
 }
@@ -87,6 +88,65 @@ func c05Gen(rng *rand.Rand, idx int) c05Scenario {
 		n := 10 + rng.IntN(25)
 		for i := 0; i < n; i++ {
 			sc.Ops = append(sc.Ops, c05GenOp(rng, false))
+		}
+	}
+	return sc
+}
+
+// c05MixedList reports whether a host list holds the no-host default together with another host.
+func c05MixedList(hosts []string) bool { return len(hosts) > 1 && contains(hosts, "") }
+
+// c05GenMixedOp: like c05GenOp, but a deploy's host list is drawn from all of c05Hosts at once, so
+// that the no-host default stands next to named and wildcard hosts in one list (in any position);
+// the rest are lists of named hosts only or the default alone, which meet the mixed ones in
+// conflicts, moves and releases.
+func c05GenMixedOp(rng *rand.Rand, lookups bool) c05Op {
+	op := c05GenOp(rng, lookups)
+	if op.Kind != "deploy" {
+		return op
+	}
+	op.Hosts = nil
+	switch k := rng.IntN(10); {
+	case k < 5: // the default plus 1..3 others, the default at a random position
+		for _, i := range rng.Perm(3)[:1+rng.IntN(3)] {
+			op.Hosts = append(op.Hosts, c05Hosts[i])
+		}
+		at := rng.IntN(len(op.Hosts) + 1)
+		op.Hosts = append(op.Hosts[:at:at], append([]string{""}, op.Hosts[at:]...)...)
+	case k < 9: // named / wildcard hosts only
+		for _, i := range rng.Perm(3)[:1+rng.IntN(2)] {
+			op.Hosts = append(op.Hosts, c05Hosts[i])
+		}
+	default:
+		op.Hosts = []string{""}
+	}
+	if rng.IntN(3) > 0 { // short prefix lists with "/" in most of them, so that lists meet often
+		op.Prefixes = [][]string{{"/"}, {"/", "/api"}, {"/api"}, {"/api", "/"}}[rng.IntN(4)]
+	}
+	return op
+}
+
+// c05GenMixed: the three scenario kinds of c05Gen (sequential history, concurrent history, racing
+// rounds) over host lists that mix the no-host default with named hosts.
+func c05GenMixed(rng *rand.Rand, idx, j int) c05Scenario {
+	sc := c05Scenario{Idx: idx, Mixed: true, Concurrent: j%2 == 1}
+	if j%4 == 3 {
+		sc.Race, sc.Clients = 40, 2+rng.IntN(3)
+		return sc
+	}
+	if sc.Concurrent {
+		sc.Clients = 2 + rng.IntN(4)
+		n := 8 + rng.IntN(22)
+		for i := 0; i < n; i++ {
+			op := c05GenMixedOp(rng, true)
+			op.Client = rng.IntN(sc.Clients)
+			sc.Ops = append(sc.Ops, op)
+		}
+	} else {
+		sc.Clients = 1
+		n := 8 + rng.IntN(20)
+		for i := 0; i < n; i++ {
+			sc.Ops = append(sc.Ops, c05GenMixedOp(rng, false))
 		}
 	}
 	return sc
@@ -190,6 +250,16 @@ func TestC05(t *testing.T) {
 			continue
 		}
 		synctest.Test(t, func(t *testing.T) { c05Overlap(t, run, k, run.Rand(n+k)) })
+	}
+	// host lists mixing the no-host default with named / wildcard hosts: every listed host is a pair
+	// of its own, whatever stands next to it in the list
+	base := n + run.N(24, 600)
+	for j := 0; j < run.N(160, 6000); j++ {
+		sc := c05GenMixed(run.Rand(base+j), base+j, j)
+		if !run.Mine(base+j, sc) {
+			continue
+		}
+		synctest.Test(t, func(t *testing.T) { c05Run(t, run, sc, run.Rand(base+j+1<<30)) })
 	}
 }
 
@@ -397,8 +467,21 @@ func c05Run(t *testing.T, run *Run, sc c05Scenario, rng *rand.Rand) {
 	if !sc.Concurrent {
 		st := c05State{}
 		conflicts, moves := 0, 0
+		mixedOK, mixedConf := 0, 0 // deploys of a mixed list accepted; deploys refused over a pair held by a service with a mixed list
 		for i, op := range sc.Ops {
 			want, ns := st.apply(op)
+			if op.Kind == "deploy" && want && c05MixedList(op.Hosts) {
+				mixedOK++
+			}
+			if op.Kind == "deploy" && !want {
+				cand := c04Service{Name: op.Name, Hosts: op.Hosts, Prefixes: op.Prefixes}
+				for n, o := range st {
+					if n != op.Name && c05MixedList(o.Hosts) && c04Conflicts(cand, o) {
+						mixedConf++
+						break
+					}
+				}
+			}
 			got := c05Exec(w, op, fmt.Sprintf("l%d", i))
 			if got.Name != "" {
 				fail("unexpected-result", "step %d %+v: %s", i, op, got.Name)
@@ -449,7 +532,11 @@ func c05Run(t *testing.T, run *Run, sc c05Scenario, rng *rand.Rand) {
 			}
 		}
 		run.Count("sequential_steps", len(sc.Ops))
-		if conflicts > 0 || moves > 0 {
+		if sc.Mixed {
+			run.Count("mixed_list_deploys_accepted", mixedOK)
+			run.Count("deploys_refused_over_a_pair_of_a_mixed_list", mixedConf)
+			run.Class(fmt.Sprintf("mixed-seq|mixed-deploys=%d|refused-over-mixed=%d|moves=%v", min(mixedOK, 4), min(mixedConf, 3), moves > 0))
+		} else if conflicts > 0 || moves > 0 {
 			run.Class(fmt.Sprintf("seq|conflicts=%d|moves=%d|n=%d", min(conflicts, 6), min(moves, 6), len(sc.Ops)/10))
 		}
 		run.Sample(map[string]any{"scenario": sc, "conflicts": conflicts, "moves": moves})
@@ -522,6 +609,9 @@ func c05Run(t *testing.T, run *Run, sc c05Scenario, rng *rand.Rand) {
 	seen := map[string]string{}
 	for name, d := range w.Router.ListActiveServices() {
 		for _, h := range strings.Split(d.Host, ",") {
+			if h == "*" {
+				h = "" // how list prints the no-host default when it is the only host
+			}
 			for _, p := range strings.Split(d.Path, ",") {
 				if o, dup := seen[h+" "+p]; dup {
 					fail("pair-owned-twice", "after the concurrent history both %s and %s own host %q path %q", o, name, h, p)
@@ -533,7 +623,16 @@ func c05Run(t *testing.T, run *Run, sc c05Scenario, rng *rand.Rand) {
 	}
 	run.Count("concurrent_ops", len(hist))
 	run.Count("overlapping_deploy_pairs", overlaps)
-	if overlaps > 0 {
+	if sc.Mixed {
+		mixed := 0
+		for i := range hist {
+			if op := hist[i].Input.(c05Op); op.Kind == "deploy" && c05MixedList(op.Hosts) && hist[i].Output.(c05Out).OK {
+				mixed++
+			}
+		}
+		run.Count("mixed_list_deploys_accepted", mixed)
+		run.Class(fmt.Sprintf("mixed-conc|clients=%d|overlaps=%d|mixed-deploys=%d", sc.Clients, min(overlaps/4, 3)*4, min(mixed, 4)))
+	} else if overlaps > 0 {
 		run.Class(fmt.Sprintf("conc|clients=%d|overlaps=%d|n=%d", sc.Clients, min(overlaps, 20), len(hist)/8))
 	}
 	run.Sample(map[string]any{"clients": sc.Clients, "ops": len(hist), "overlapping_deploy_pairs": overlaps})
@@ -544,6 +643,9 @@ func c05Run(t *testing.T, run *Run, sc c05Scenario, rng *rand.Rand) {
 // Exactly one must win; the router must list exactly one owner.
 func c05Race(w *World, run *Run, sc c05Scenario, fail func(sig, format string, a ...any)) {
 	k := sc.Clients
+	// mixed rounds: every racer lists a.com (so all claim the pair a.com /), next to other hosts
+	// that differ from racer to racer: the default before or after it, a wildcard, another name
+	variants := [][]string{{"a.com"}, {"", "a.com"}, {"*.a.com", "a.com"}, {"a.com", ""}, {"a.com", "b.com"}, {"b.com", "", "a.com"}}
 	for round := 0; round < sc.Race; round++ {
 		var mu sync.Mutex
 		arrived := 0
@@ -571,7 +673,11 @@ func c05Race(w *World, run *Run, sc c05Scenario, fail func(sig, format string, a
 			wg.Add(1)
 			go func() {
 				defer wg.Done()
-				results[i] = c05Exec(w, c05Op{Kind: "deploy", Name: c05Names[i], Hosts: []string{"a.com"}, Prefixes: []string{"/"}}, "")
+				hosts := []string{"a.com"}
+				if sc.Mixed {
+					hosts = variants[(round+sc.Idx+i*(1+round/len(variants)%2))%len(variants)]
+				}
+				results[i] = c05Exec(w, c05Op{Kind: "deploy", Name: c05Names[i], Hosts: hosts, Prefixes: []string{"/"}}, "")
 			}()
 		}
 		wg.Wait()
@@ -597,6 +703,11 @@ func c05Race(w *World, run *Run, sc c05Scenario, fail func(sig, format string, a
 			w.Router.RemoveService(name)
 		}
 		run.Count("race_rounds", 1)
+	}
+	if sc.Mixed {
+		run.Count("mixed_race_rounds", sc.Race)
+		run.Class(fmt.Sprintf("mixed-race|k=%d", k))
+		return
 	}
 	run.Class(fmt.Sprintf("race|k=%d", k))
 }
